@@ -441,6 +441,24 @@ func runC13(c *Ctx) {
 			}
 		}
 	}
+	// ---- integer VALUES under every Go spelling: the verdict depends on the number, not on its Go type ----
+	for _, l := range c13labels {
+		for _, iv := range []int64{0, 1, 42, 127, 255, 65535, -1, -7, -128} {
+			for t := 0; t < gen.IntSpellings; t++ {
+				if !gen.Fits(iv, t) {
+					continue
+				}
+				for _, protected := range []bool{true, false} {
+					goMap := map[any]any{l: gen.SpellIntAs(iv, t)}
+					wm := refcbor.NMap(wireLabel(l), refcbor.NInt(iv))
+					if il, isInt := l.(int64); isInt && il == 2 {
+						continue // crit takes an array
+					}
+					c13judgeBucket(rec, fmt.Sprintf("int-value/label=%v/value=%d/valueSpelling=%s/protected=%v", l, iv, gen.SpellNames[t], protected), goMap, wm, protected)
+				}
+			}
+		}
+	}
 	// ---- IV / Partial IV pairs ----
 	for _, place := range []struct{ ivProt, pivProt bool }{{true, true}, {true, false}, {false, true}, {false, false}} {
 		for t1 := 0; t1 < gen.IntSpellings; t1++ {
